@@ -90,3 +90,74 @@ def module_state_obligations(repo):
 
 # class-level defaults of ndpoly that every instance overwrites in __new__ / __array_finalize__
 ALLOWED_CLASS_STATE = {("numpoly/baseclass.py", "ndpoly.keys"), ("numpoly/baseclass.py", "ndpoly._dtype")}
+
+
+# ---------------------------------------------------------------------------------------------------------------------
+# instance_state_obligations: an ndpoly is its structured storage plus exactly these attributes, all set when the object is made
+# (__new__) or derived from another one (__array_finalize__).  Views (p.T, p.ravel(), p.reshape(...), p[index]) are separate
+# objects over the SAME memory, so any further attribute that holds something computed from the contents (a cached coefficient
+# list, a memoised repr ...) goes stale when the array is updated through another view - results then depend on the history.
+INSTANCE_ATTRIBUTES = {"keys", "names", "allocation", "_dtype"}
+INSTANCE_WRITERS = {"__new__", "__array_finalize__", "__setstate__"}
+NDARRAY_METADATA = {"shape", "dtype", "strides", "writeable"}      # numpy's own settable metadata (x.shape = ..., x.flags.writeable = ...)
+
+
+def instance_state_obligations(repo):
+    out = []
+    root = os.path.join(repo, "numpoly")
+    nstores = 0
+    for dirpath, _dirs, files in sorted(os.walk(root)):
+        for fn in sorted(files):
+            if not fn.endswith(".py"):
+                continue
+            path = os.path.join(dirpath, fn)
+            rel = os.path.relpath(path, repo)
+            try:
+                tree = ast.parse(open(path).read())
+            except SyntaxError:
+                out.append((f"instance_state.parse[{rel}]", False, rel, 0))
+                continue
+            # enclosing function of every node
+            owner = {}
+            for fdef in ast.walk(tree):
+                if isinstance(fdef, (ast.FunctionDef, ast.AsyncFunctionDef)):
+                    for sub in ast.walk(fdef):
+                        owner.setdefault(id(sub), fdef.name) if sub is not fdef else None
+            for node in ast.walk(tree):
+                tgts = []
+                if isinstance(node, ast.Assign):
+                    tgts = node.targets
+                elif isinstance(node, (ast.AnnAssign, ast.AugAssign)):
+                    tgts = [node.target]
+                flat = []
+                for t in tgts:
+                    flat.extend(t.elts if isinstance(t, (ast.Tuple, ast.List)) else [t])
+                for t in flat:
+                    if isinstance(t, ast.Attribute) and isinstance(t.ctx, ast.Store):
+                        base = ast.unparse(t.value)
+                        if base.startswith(("numpy.", "logging.", "logger")) or t.attr in NDARRAY_METADATA:
+                            continue
+                        nstores += 1
+                        fn_name = owner.get(id(node), "<module>")
+                        # assignments to attributes of other kinds of objects (flags of a plain array, ...) are named too: each
+                        # must be one of the few reviewed sites
+                        ok = (t.attr in INSTANCE_ATTRIBUTES and rel == "numpoly/baseclass.py" and fn_name in INSTANCE_WRITERS) or \
+                            (rel, fn_name, f"{base}.{t.attr}") in ALLOWED_ATTRIBUTE_STORES
+                        out.append((f"instance_state.attribute_store[{rel}:{fn_name}:{base}.{t.attr}]", ok, rel, node.lineno))
+                if isinstance(node, ast.Call):
+                    f = node.func
+                    name = f.id if isinstance(f, ast.Name) else (f.attr if isinstance(f, ast.Attribute) else "")
+                    if name in ("setattr", "__setattr__", "delattr"):
+                        out.append((f"instance_state.setattr_call[{rel}:{owner.get(id(node), '<module>')}]", False, rel, node.lineno))
+                if isinstance(node, ast.Attribute) and node.attr == "__dict__":
+                    out.append((f"instance_state.dict_access[{rel}:{owner.get(id(node), '<module>')}]", False, rel, node.lineno))
+                if isinstance(node, ast.ClassDef):
+                    for st in node.body:
+                        if isinstance(st, ast.Assign) and any(isinstance(t, ast.Name) and t.id == "__slots__" for t in st.targets):
+                            out.append((f"instance_state.slots[{rel}:{node.name}]", False, rel, st.lineno))
+    out.append(("instance_state.attribute_stores_found", nstores >= 4, "numpoly/", 0))
+    return out
+
+
+# attribute stores on objects that are not polynomial arrays (reviewed): none at the pinned commit besides ndpoly's own four
+ALLOWED_ATTRIBUTE_STORES = set()
